@@ -6,7 +6,14 @@ The repaired code records EVERY failure of a pass body on its Module (every pass
 declare exemptions through a class attribute `REWRITES_MODULES` (an earlier draft of the repair did), the flags are read from
 the class bodies in the SOURCE (ast; inherited along the textual base classes) and cross-checked against the live classes, and
 Props/C08.v requires every pass whose source changes Modules in place to be declared rewriting.  `c08_has_failure_record` says
-whether elaborate_module_base and the exporter raise a recorded `_elab_failure`; without it Props/C08.v fails closed."""
+whether elaborate_module_base and the exporter raise a recorded `_elab_failure`; without it Props/C08.v fails closed.
+
+Strengthening round: the SHAPE of the exception handling is read as well (the model's policy `repaired` does not tell an
+`Exception` from any other `BaseException`; the code must not either):
+  c08_pass_pending_finally   every `pending.remove` of elaborate_module_base sits in a `finally` whose `try` directly follows `pending.add`
+  c08_pass_record_base       the handler that records `_elab_failure` around `self.elaborate_module(...)` is bare or `BaseException`, and re-raises
+  c08_pass_sweep             elaborate_tops visits `self.modules_below(self.tops)` after the tops; the live `modules_below` is a depth-first walk
+  c08_gen_pending_finally / c08_gen_stack_finally   the same for generator.run (`pending.remove`, `stack.pop`)"""
 import ast as _ast
 
 _FILES = {"Orphanage": "orphanage.py", "InstBundleElabPass": "inst_bundles.py", "ResolvePortRefs": "portrefs.py",
@@ -138,11 +145,121 @@ def _c08_passes():
     fnode = find_func(src("hdl21/elab/passes/base.py"), "elaborate_module_base", cls="ElabPass")
     sets = any(isinstance(n, _ast.Assign) and isinstance(n.targets[0], _ast.Attribute) and n.targets[0].attr == "_elab_failure"
                for n in _ast.walk(fnode))
-    body = (f"Definition c08_has_failure_record : bool := {b(sets and uses == 2)}.\n"
+    shape = _c08_shape()
+    body = (f"Definition c08_has_failure_record : bool := {b(sets and uses == 2)}.\n" +
+            "".join(f"Definition {k} : bool := {b(v)}.\n" for k, v in shape) +
             "(* entry name, cache index, REWRITES_MODULES, sets _elaborated, source scan finds in-place changes, what it found *)\n"
             "Definition c08_passes : list (string * nat * bool * bool * bool * string) :=\n  [" +
             ";\n   ".join(f"({cstr(n)}, {i}%nat, {b(rw)}, {b(mk)}, {b(mu)}, {cstr(what)})" for n, i, rw, mk, mu, what in rows) + "].\n")
     emit("C08Passes", body)
+
+
+def _attr_chain(n):
+    out = []
+    while isinstance(n, _ast.Attribute):
+        out.append(n.attr)
+        n = n.value
+    if isinstance(n, _ast.Name):
+        out.append(n.id)
+    return list(reversed(out))
+
+
+def _calls(node, tail):
+    """Call nodes below `node` whose function is an attribute chain ending in `tail` (e.g. ["pending", "remove"])"""
+    return [n for n in _ast.walk(node) if isinstance(n, _ast.Call) and _attr_chain(n.func)[-len(tail):] == tail]
+
+
+def _blocks(fn):
+    """every statement list of the function"""
+    out = []
+    for n in _ast.walk(fn):
+        for fld in ("body", "orelse", "finalbody"):
+            b = getattr(n, fld, None)
+            if isinstance(b, list) and b and isinstance(b[0], _ast.stmt):
+                out.append(b)
+        if isinstance(n, _ast.Try):
+            for h in n.handlers:
+                out.append(h.body)
+    return out
+
+
+def _guarded(fn, add_tail, rem_tail):
+    """every call ...rem_tail lies in the `finally` of a `try` that DIRECTLY follows the statement holding ...add_tail,
+    there is at least one, and none anywhere else"""
+    rems = _calls(fn, rem_tail)
+    adds = _calls(fn, add_tail)
+    if not rems or len(adds) != 1:
+        return False
+    infinal = []
+    for t in [n for n in _ast.walk(fn) if isinstance(n, _ast.Try)]:
+        for st in t.finalbody:
+            infinal += _calls(st, rem_tail)
+    if len(infinal) != len(rems):
+        return False
+    for blk in _blocks(fn):
+        for i, st in enumerate(blk):
+            if any(n is adds[0] for n in _ast.walk(st)):
+                nxt = blk[i + 1] if i + 1 < len(blk) else None
+                if isinstance(nxt, _ast.Try) and any(_calls(x, rem_tail) for x in nxt.finalbody):
+                    return True
+    return False
+
+
+def _c08_shape():
+    base = src("hdl21/elab/passes/base.py")
+    emb = find_func(base, "elaborate_module_base", cls="ElabPass")
+    pend_ok = _guarded(emb, ["pending", "add"], ["pending", "remove"])
+    rec_ok = False
+    for t in [n for n in _ast.walk(emb) if isinstance(n, _ast.Try)]:
+        if any(_calls(st, ["self", "elaborate_module"]) for st in t.body):
+            for h in t.handlers:
+                catches_all = h.type is None or (isinstance(h.type, _ast.Name) and h.type.id == "BaseException")
+                sets = any(isinstance(n, _ast.Assign) and isinstance(n.targets[0], _ast.Attribute) and n.targets[0].attr == "_elab_failure"
+                           for st in h.body for n in _ast.walk(st))
+                reraises = any(isinstance(n, _ast.Raise) and n.exc is None for st in h.body for n in _ast.walk(st))
+                first = h is t.handlers[0]
+                if catches_all and sets and reraises and first:
+                    rec_ok = True
+    tops = find_func(base, "elaborate_tops", cls="ElabPass")
+    loops = [n for n in _ast.walk(tops) if isinstance(n, _ast.For)]
+    sweep_ok = False
+    if len(loops) == 2 and _calls(loops[0], ["self", "elaborate_module_base"]) and _calls(loops[1], ["self", "elaborate_module_base"]):
+        it = loops[1].iter
+        if isinstance(it, _ast.Call) and _attr_chain(it.func) == ["self", "modules_below"] and len(it.args) == 1 \
+                and _attr_chain(it.args[0]) == ["self", "tops"] and tops.body.index(loops[0]) < tops.body.index(loops[1]):
+            sweep_ok = True
+    if sweep_ok:
+        # live cross-check: a depth-first walk, each module once, following instances, arrays and instance bundles
+        import hdl21 as h
+        from hdl21.elab.passes.base import ElabPass
+        ms = [h.Module(name=f"W{i}") for i in range(5)]
+        for a, kids in ((0, [1, 3]), (1, [2]), (3, [2, 4]), (4, [0])):      # a diamond, and a cycle back to the top
+            for j, k in enumerate(kids):
+                ms[a].add((h.Instance if (a + j) % 2 else h.InstanceArray)(of=ms[k], name=f"i{j}", **({} if (a + j) % 2 else {"n": 2})))
+        got = [m.name for m in ElabPass.modules_below([ms[0], ms[4]])]
+        if got != _dfs_expected(ms) or sorted(got) != [f"W{i}" for i in range(5)]:
+            die(f"ElabPass.modules_below is not the depth-first walk the model follows: {got} vs {_dfs_expected(ms)}")
+    gen = find_func(src("hdl21/generator.py"), "run")
+    gp_ok = _guarded(gen, ["pending", "add"], ["pending", "remove"])
+    gs_ok = _guarded(gen, ["stack", "append"], ["stack", "pop"])
+    return [("c08_pass_pending_finally", pend_ok), ("c08_pass_record_base", rec_ok), ("c08_pass_sweep", sweep_ok),
+            ("c08_gen_pending_finally", gp_ok), ("c08_gen_stack_finally", gs_ok)]
+
+
+def _dfs_expected(ms):
+    """the order the MODEL walks (Model/C08PassFail.v reach_step): instances, then arrays, then instance bundles"""
+    order, seen = [], set()
+
+    def walk(m):
+        if id(m) in seen:
+            return
+        seen.add(id(m))
+        order.append(m.name)
+        for ctr in (m.instances, m.instarrays, m.instbundles):
+            for x in ctr.values():
+                walk(x.of)
+    walk(ms[0]); walk(ms[4])
+    return order
 
 
 _c08_passes()
